@@ -8,7 +8,6 @@ import (
 	"fmt"
 	"regexp"
 	"slices"
-	"strings"
 
 	"github.com/roddhjav/apparmor.d/pkg/prebuild"
 )
@@ -59,7 +58,8 @@ func filter(only bool, opt *Option, profile string) (string, error) {
 	}
 
 	if opt.IsInline() {
-		profile = strings.ReplaceAll(profile, opt.Raw, "")
+		regRemoveLine := regexp.MustCompile(`(?m)^` + regexp.QuoteMeta(opt.Raw) + `$`)
+		profile = regRemoveLine.ReplaceAllLiteralString(profile, "")
 	} else {
 		regRemoveParagraph := regexp.MustCompile(`(?sm)^` + regexp.QuoteMeta(opt.Raw) + `\n.*?\n\n`)
 		profile = regRemoveParagraph.ReplaceAllString(profile, "")
